@@ -44,6 +44,10 @@ def generate(rng, tier, shard, nshards):
         reg = regs[i % len(regs)]
         if reg == "near_unit":
             tri = [gens.unit(rng) * (1.0 + float(rng.choice([-1, 1])) * gens.logu(rng, 1e-9, 1e-3)) for _ in range(3)]
+            if i % 3 == 0:      # almost the identity itself (inside any is-it-the-identity tolerance): real, or with a vector part of 1e-12..1e-6
+                k_ = int(rng.integers(3))
+                v_ = gens.axis(rng) * (0.0 if i % 2 else gens.logu(rng, 1e-12, 1e-6))
+                tri[k_] = np.r_[float(rng.choice([-1.0, 1.0])) * (1.0 + float(rng.choice([-1, 1])) * gens.logu(rng, 1e-9, 1e-5)), v_]
         elif reg == "special":
             tri = [gens.unit_quat(rng, str(rng.choice(["pure", "real", "axis_aligned", "generic"]))) * gens.logu(rng, 1e-2, 1e2)
                    for _ in range(3)]
@@ -203,6 +207,21 @@ def check(case, ctx):
             cj = d["conj"]
             ctx.le("S: same conjugate (in its storage order)", rel(np.r_[cj[3], cj[:3]], rq.qconj(aa), na), TWIN, {"conj": cj}, route=r)
             ctx.le("S: same product with a plain argument", rel(d["prod"], ab, sab), REL, route=r)
+        # everything that is a matrix, an angle or a flag (no storage order of its own) must be identical for the two storages
+        o4 = call(lambda: [(np.asarray(X.mult_L(), float), np.asarray(X.mult_R(), float), np.asarray(X.to_angles(), float), np.asarray(X.to_axang()[0], float),
+                            float(X.to_axang()[1]), float(X.is_pure()), float(X.is_real()), float(X.is_versor()), float(X.is_identity())) for X in (AS, A)])
+        if ctx.returned(o4, route=r):
+            S_, H_ = o4.value
+            ctx.le("S: same mult_L() / mult_R() matrices", max(np.abs(S_[0] - H_[0]).max(), np.abs(S_[1] - H_[1]).max()) / na, TWIN, {"S.mult_R": S_[1], "H.mult_R": H_[1]}, route=r)
+            ctx.le("S: mult_R() @ b = b * a (reference)", rel(S_[1] @ bb, rq.qmul(bb, aa), sab), REL, route=r)
+            def nd(x, y):      # NaN == NaN (a non-unit quaternion has no Euler angles: both storages must say so alike)
+                x, y = np.atleast_1d(np.asarray(x, float)), np.atleast_1d(np.asarray(y, float))
+                if not np.array_equal(np.isnan(x), np.isnan(y)):
+                    return float("inf")
+                d_ = np.abs(x - y)
+                return float(np.nanmax(d_)) if np.any(~np.isnan(d_)) else 0.0
+            ctx.le("S: same to_angles() / to_axang()", max(nd(S_[2], H_[2]), nd(S_[3], H_[3]), nd(S_[4], H_[4])), 1e-13, route=r)
+            ctx.ok("S: same is_pure / is_real / is_versor / is_identity", S_[5:] == H_[5:], {"S": S_[5:], "H": H_[5:]}, route=r)
         if versor or abs(na - 1) < 1e-12:
             o3 = call(lambda: (np.asarray(AS.to_DCM(), float), np.asarray(A.to_DCM(), float),
                                np.asarray(AS.rotate(v.copy()), float), np.asarray(A.rotate(v.copy()), float)))
